@@ -119,6 +119,8 @@ def c06_1(ctx):
             return True
         if isinstance(v, ast.BinOp) and isinstance(v.op, ast.Add):
             return _fresh_list(v.left) or _fresh_list(v.right)
+        if isinstance(v, ast.Subscript) and isinstance(v.slice, ast.Slice):
+            return _fresh_list(v.value)         # a slice of a new list
         return False
     for e in rets:
         v = e.value.elts[0]
